@@ -223,6 +223,17 @@ func Arg(k, def string) string {
 	return def
 }
 
+// ArgInt is Arg for integers.
+func ArgInt(k string, def int64) int64 {
+	if v, ok := F.Args[k]; ok {
+		var n int64
+		if _, err := fmt.Sscan(v, &n); err == nil {
+			return n
+		}
+	}
+	return def
+}
+
 // ReadJSON reads a JSON file into v.
 func ReadJSON(path string, v any) error {
 	b, err := os.ReadFile(path)
